@@ -237,7 +237,7 @@ def Run(tier):
     if udf.get('lines') and not cnt.get(cls_name):
       never.append('udf:' + cls_name)
   for feat in ('agg_head', 'agg_expr', 'ties', 'null_row', 'one_rule',
-               'batched'):
+               'batched', 'string_domain', 'rows0', 'rows4'):
     if not out.feature_counts.get(feat):
       never.append('feature:' + feat)
   if out.impl_status.get('skipped_big'):
@@ -257,7 +257,9 @@ def Run(tier):
       'distinct_nontrivial': len(out.nontrivial) + udf.get('nontrivial', 0),
       'rule': RULE,
       'samples': samples,
-      'exhaustive': True,
+      # built-in domains and UDF step sequences are exhaustive in both tiers;
+      # the arrangements of 3-4 aggregate rows are sampled in the quick tier
+      'exhaustive': tier == 'thorough',
       'pipeline': {
           'programs': out.cases, 'tables_judged': out.preds_judged,
           'tables_ok': out.ok,
